@@ -6,6 +6,7 @@ import IGVerif.Proofs.ComboNorm
 import IGVerif.Proofs.ComboContent
 import IGVerif.Proofs.ComboSharedChains
 import IGVerif.Proofs.ComboMultiChains
+import IGVerif.Proofs.ComboBridge
 /-! C01 — components and combinations are parsed exactly as written. -/
 namespace IGVerif.C01
 open IGVerif
@@ -185,6 +186,18 @@ theorem two_groups_with_chains (l m r : Option Str) (o₁ o₂ : Op3) (l₁ r₁
       exact ⟨_, _, Combo.parse_multi2_chains l m r o₁ o₂ l₁ r₁ l₂ r₂ hw₁ hw₂ hl hm hr nested fuel hf₁ hf₂,
         Combo.toP_multi2 l m r o₁ o₂ _ _ _ _ ha₁ hb₁' ha₂ hb₂'⟩
 
+/-- **Round trip for the grammar AST: `parse (render e) = denote e`** at the level of the
+    combination parser, for every expression of the specification built from values, explicitly
+    parenthesised binary combinations and same-operator chains, nested in any way and to any depth
+    (`Combo.Chainy`): the tree returned for the rendered text is the tree the notation denotes.
+    (`Combo.ofE` maps the expression into the chain notation of `combination_parser_chains_anywhere`,
+    with the same text — `rT_ofE` — and the same meaning — `meaning_ofE`.) -/
+theorem combination_parser_round_trip_expr (e : Expr) (h : Combo.Chainy e) (hnl : ∀ t, e ≠ .leaf t) (nested : Bool)
+    (fuel : Nat) (hf : Combo.depth (Combo.toE (Combo.ofE e)) ≤ fuel) :
+    ∃ n out, Combo.parse false fuel (renderE e) nested = .res ⟨n, out, Combo.cNoError⟩
+       ∧ Combo.toP n = denoteE [] [] e :=
+  Combo.parse_renderE_chains e h hnl nested fuel hf
+
 /-- a value without parentheses and brackets is one leaf -/
 theorem combination_parser_plain_value (t : Str) (h : Combo.Plain t) (nested : Bool) (fuel : Nat) :
     Combo.parse false (fuel+1) t nested = .res ⟨.leaf (Combo.trimSp t), t, Combo.cNoCombinations⟩ :=
@@ -208,5 +221,10 @@ example : Combo.BinW (.comb .AND (.leaf ['a']) (.comb .OR (.leaf ['b', ' ', 'c']
 /-- shared text such as `the x` satisfies the side condition -/
 example : Combo.SWord ['t', 'h', 'e', ' ', 'x'] := by
   refine ⟨?_, ?_, ?_, ?_⟩ <;> simp [Combo.Plain, Combo.isWs, Combo.isIgnoredShared]
+
+/-- `(a [AND] (b [OR] c [OR] d) [AND] e)` as an expression of the specification -/
+example : Combo.Chainy (.chain .AND (.leaf ['a']) (.chain .OR (.leaf ['b']) (.leaf ['c']) [.leaf ['d']]) [.leaf ['e']]) := by
+  simp only [Combo.Chainy, Combo.ChainyL, and_true]
+  refine ⟨⟨?_, ?_, ?_, ?_⟩, ⟨⟨?_, ?_, ?_, ?_⟩, ⟨?_, ?_, ?_, ?_⟩, ⟨?_, ?_, ?_, ?_⟩⟩, ⟨?_, ?_, ?_, ?_⟩⟩ <;> simp [Combo.Plain]
 
 end IGVerif.C01
